@@ -571,8 +571,48 @@ def gen_history(r, version, opts=None):
             line = new_record(st, r)
             if line is None:
                 continue
-            model_add(st, line)
-            ops.append(["add", line, gen.chance(r, o["instance"])])
+            how = gen.chance(r, o["instance"])
+            want_clone = gen.fair(r, o.get("p_clone", 0.08)) and line[0] not in ("H", "#")
+            cont = line[0] in ("O", "U") and line[1][0] != "*" and st.model.by_name(line[1][0]) is not None
+            if want_clone and not cont and not any(t[0] == "q9" for t in line[2]) and gen.chance(r, 0.7):
+                # a tag whose datatype is not the default one of its value: it lives in the line's datatype table only
+                line[2].append(gen.choice(r, [["q9", "A", "x"], ["q9", "J", "[1,2]"], ["q9", "H", "0AF1"], ["q9", "J", "[0.5]"]]))
+            rec1 = model_add(st, line)
+            follow = []
+            if want_clone:
+                # the Line object that is added is a clone() of one built from the text (whose fields were
+                # read before); for some record types the original is added as well, as a twin under another
+                # name (or, where records need no name, as an identical second record)
+                how = "clone"
+                unnamed_ok = (line[0] == "C" and not any(t[0] == "ID" for t in line[2])) or line[0] == "F" or \
+                    (line[0] in ("E", "G") and line[1][0] == "*")
+                named = line[0] in ("P", "O", "U") and line[1][0] != "*"
+                if (unnamed_ok or named) and gen.chance(r, 0.7):
+                    twin = None
+                    if named:
+                        twin = st.free_name(line[0], r, allow_undefined=False)
+                        if twin is None or (version == "gfa1" and "," in twin):
+                            named = False
+                    if unnamed_ok or named:
+                        how = ["pair", twin, gen.chance(r, 0.5)]
+                        rec2 = model_add(st, [line[0], ([twin] + list(line[1][1:])) if twin else list(line[1]), [list(t) for t in line[2]]])
+                        if o.get("p_tag") and rec1 is not rec2 and gen.chance(r, 0.6):
+                            # tag edits on one of the two copies right away (what the copies share shows here)
+                            a, b = (rec1, rec2) if gen.chance(r, 0.5) else (rec2, rec1)
+                            ia = [i_ for i_, x_ in enumerate(st.model.recs) if x_ is a]
+                            ib = [i_ for i_, x_ in enumerate(st.model.recs) if x_ is b]
+                            if ia and ib:
+                                if a.tag("q9") is not None and gen.chance(r, 0.5):
+                                    t_ = a.tag("q9")[0]
+                                    a.tags = [x_ for x_ in a.tags if x_[0] != "q9"]
+                                    follow.append(["set_tag", ia[0], "q9", t_, None])
+                                elif a.tag("zz") is None and b.tag("zz") is None:
+                                    a.tags.append(("zz", "i", "12"))
+                                    b.tags.append(("zz", "Z", "hello"))
+                                    follow.append(["set_tag", ia[0], "zz", "i", "12"])
+                                    follow.append(["set_tag", ib[0], "zz", "Z", "hello"])
+            ops.append(["add", line, how])
+            ops.extend(follow)
     if o["close"]:
         close_history(st, r, ops)
     return {"version": version, "ops": ops}
@@ -643,6 +683,7 @@ class Runner:
         self.gfa = gfapy.Gfa(version=version, vlevel=vlevel)
         self.removed = []  # gfapy line objects that were removed (ghost detection)
         self.instances = []  # Line objects handed to add_line
+        self.spares = []  # Line objects that were cloned and not added themselves
 
     def find_line(self, rec):
         """The gfapy line that corresponds to a model record."""
@@ -672,7 +713,30 @@ class Runner:
         elif kind == "add":
             rec = G.Rec.from_plain(op[1], self.version)
             text = rec.text()
-            if len(op) > 2 and op[2]:
+            if len(op) > 2 and (op[2] == "clone" or isinstance(op[2], list)):
+                inst0 = gfapy.Line(text, version=self.version, vlevel=self.vlevel)
+                for fn in list(inst0.positional_fieldnames) + list(inst0.tagnames):
+                    inst0.get(fn)
+                inst = inst0.clone()
+                self.spares.append(inst0)
+                if op[2] == "clone":
+                    self.instances.append(inst)
+                    self.gfa.add_line(inst)
+                else:
+                    _p, twin, clone_first = op[2]
+                    if twin:
+                        inst.name = twin
+                    pair = [(inst, True), (inst0, False)] if clone_first else [(inst0, False), (inst, True)]
+                    for x, _is_clone in pair:
+                        self.instances.append(x)
+                        self.gfa.add_line(x)
+                    # (the model keeps the generator's order: the record as drawn, then its twin)
+                    r2 = G.Rec.from_plain(op[1], self.version)
+                    if twin:
+                        r2.pos[0] = twin
+                    self.model.add(rec)
+                    rec = r2
+            elif len(op) > 2 and op[2]:
                 inst = gfapy.Line(text, version=self.version, vlevel=self.vlevel)
                 if inst.record_type != "H":
                     self.instances.append(inst)
